@@ -514,6 +514,7 @@ Proof.
   destruct (Z.ltb_spec (a_max a) x); cbn [orb]; [discriminate|].
   destruct (Z.ltb_spec ts ((s_time s - 900 * SEC) / SEC)); cbn [orb]; [discriminate|].
   destruct (Z.leb_spec ((s_time s + 1800 * SEC) / SEC) ts); cbn [orb]; [discriminate|].
+  destruct (Z.ltb_spec (U64 - 1 - s_height s) span) as [Hwrap|Hwrap]; [discriminate|].
   destruct (Nat.eqb_spec sender (a_deputy a)) as [Es|Es];
   destruct (Nat.eqb_spec recip (a_deputy a)) as [Er|Er]; try discriminate.
   - (* incoming *)
@@ -533,6 +534,45 @@ Proof.
     repeat split; try assumption; try lia.
     right. repeat split; try assumption; try lia.
 Qed.
+
+(* the expiry height never wraps around uint64: a create whose height span would overflow
+   is refused (fix of keeper/swap.go), so the stored expiry is the plain sum and lies
+   strictly after the creation height whenever the span is positive *)
+Lemma create_expiry_no_wrap e s h ts span sender recip soc coins cross s' :
+  create e s h ts span sender recip soc coins cross = Ok s' tt ->
+  s_height s + span <= U64 - 1.
+Proof.
+  unfold create.
+  destruct (lookup (h, sender, soc) (s_swaps s)); [discriminate|].
+  destruct (e_macc e recip); [discriminate|].
+  destruct coins as [|[d x] [|c2 r]]; try discriminate.
+  destruct (find_asset d (e_assets e)) as [a|]; [|discriminate].
+  destruct (negb (a_active a)); [discriminate|].
+  destruct ((x <? a_min a) || (a_max a <? x)); [discriminate|].
+  destruct ((ts <? (s_time s - 900 * SEC) / SEC) || ((s_time s + 1800 * SEC) / SEC <=? ts)); [discriminate|].
+  destruct (Z.ltb_spec (U64 - 1 - s_height s) span) as [Hw|Hw]; [discriminate|].
+  intros _. lia.
+Qed.
+
+Lemma create_wrapping_span_refused e s h ts span sender recip soc coins cross :
+  U64 - 1 < s_height s + span ->
+  create e s h ts span sender recip soc coins cross = Err.
+Proof.
+  intros Hw.
+  destruct (create e s h ts span sender recip soc coins cross) as [s' []| |] eqn:E; [|reflexivity|].
+  - apply create_expiry_no_wrap in E. lia.
+  - exfalso. revert E. unfold create.
+    destruct (lookup (h, sender, soc) (s_swaps s)); [discriminate|].
+    destruct (e_macc e recip); [discriminate|].
+    destruct coins as [|[d x] [|c2 r]]; try discriminate.
+    destruct (find_asset d (e_assets e)) as [a|]; [|discriminate].
+    destruct (negb (a_active a)); [discriminate|].
+    destruct ((x <? a_min a) || (a_max a <? x)); [discriminate|].
+    destruct ((ts <? (s_time s - 900 * SEC) / SEC) || ((s_time s + 1800 * SEC) / SEC <=? ts)); [discriminate|].
+    destruct (U64 - 1 - s_height s <? span); [discriminate|].
+    repeat match goal with |- context [match ?x with _ => _ end] => destruct x end; discriminate.
+Qed.
+
 
 (* the state after closing swap [i] (record [w]) from a state whose tables are those of [s] *)
 Definition closed_state (s : state) (i : id) (w : swap) (k : paykind) (to : nat) (drop : bool)
